@@ -2,11 +2,14 @@ import AioslskVerif.Model.XferTasks
 /-!
 Line protocol for K_C06 (one op per line, same `step` the theorems are about).
 
-  reset | addDownload | addUpload | cycle <k>* | preq <k> | tstart <t> | tend <t> <ok|fail|toQueue|transferring|complete|incomplete|cancelled>
-  tcb <t> | call <k> <abort|pause|remove> | resume <k> | requeue <k> | peerfail <k>
+  reset | addDownload | addUpload | addFailed | cycle <k>* | preq <k> | tstart <t>
+  tend <t> <ok|fail|toQueue|transferring|complete|incomplete|cancelled|refused>
+  tcb <t> | call <k> <abort|pause|remove> | rmid <k> | resume <k> | requeue <k> | peerfail <k> | upfail <k>
 
-Answer: `nt=<tasks created> missed=<downloads a cycle would still spawn for|-> | <k>:<STATE>:rq<0|1>:a<attempts>:Q<N|L|D>:T<N|L|D>:
-<-|A|P|R locked>:<removed 0|1>:q<quiet 0|1>:live<n> ...`   (slot: N empty, L holds a live task, D holds a finished one)
+Answer: `nt=<tasks created> missed=<downloads a cycle would still spawn for|-> [end=<cancelled|refused|normal|none>] |
+<k>:<STATE>:r<retry 0|1>:rq<0|1>:a<attempts>:Q<N|L|D>:T<N|L|D>:<-|A|P|R locked>:<removed 0|1>:q<quiet 0|1>:live<n> ...`
+(slot: N empty, L holds a live task, D holds a finished one; `end=` after `tend`: how the model says the task ends —
+`none` when the model has no such step for it)
 -/
 open AioslskVerif.Tasks
 open AioslskVerif.Sched (St Dir)
@@ -32,12 +35,21 @@ def render (s : TS) : String :=
   let ent (k : Nat) : String :=
     let x := s.xs k
     let live := ((List.range s.nt).filter (fun t => (s.tasks t).live && (s.tasks t).xfer == k)).length
-    s!"{k}:{stName x.st}:rq{b01 x.rq}:a{x.attempts}:Q{slotStr s x.rqSlot}:T{slotStr s x.ttSlot}:{lockStr x.locked}:{b01 x.removed}:q{b01 x.quiet}:live{live}"
+    s!"{k}:{stName x.st}:r{b01 (x.dir == .download && x.st == .failed && x.retry)}:rq{b01 x.rq}:a{x.attempts}:Q{slotStr s x.rqSlot}:T{slotStr s x.ttSlot}:{lockStr x.locked}:{b01 x.removed}:q{b01 x.quiet}:live{live}"
   s!"nt={s.nt} missed={ms} | {" ".intercalate (ks.map ent)}"
+
+/-- how the model says task `t` ends when `taskEnd` is applied in state `s` -/
+def endKind (s : TS) (t : Nat) : String :=
+  let tk := s.tasks t
+  if tk.phase == .running then (if tk.cancelReq then "cancelled" else "normal")
+  else if tk.phase == .refused then "refused"
+  else if tk.phase == .blocked && tk.cancelReq then "cancelled"
+  else "none"
 
 def parseOutcome : String → Option Outcome
   | "ok" => some .ok | "fail" => some .fail | "cancelled" => some .fail | "toQueue" => some .toQueue
-  | "transferring" => some .transferring | "complete" => some .complete | "incomplete" => some .incomplete | _ => none
+  | "transferring" => some .transferring | "complete" => some .complete | "incomplete" => some .incomplete
+  | "refused" => some .fail | _ => none
 
 def parseCall : String → Option CallKind
   | "abort" => some .abort | "pause" => some .pause | "remove" => some .remove | _ => none
@@ -45,15 +57,18 @@ def parseCall : String → Option CallKind
 def parseOp : List String → Option Op
   | ["addDownload"] => some .addDownload
   | ["addUpload"] => some .addUpload
+  | ["addFailed"] => some .addFailed
   | "cycle" :: ks => (ks.mapM String.toNat?).map .cycle
   | ["preq", k] => k.toNat?.map .peerRequest
   | ["tstart", t] => t.toNat?.map .taskStart
   | ["tend", t, o] => do pure (.taskEnd (← t.toNat?) (← parseOutcome o))
   | ["tcb", t] => t.toNat?.map .doneCallback
   | ["call", k, c] => do pure (.call (← k.toNat?) (← parseCall c))
+  | ["rmid", k] => k.toNat?.map .removeMid
   | ["resume", k] => k.toNat?.map .callResume
   | ["requeue", k] => k.toNat?.map .requeue
   | ["peerfail", k] => k.toNat?.map .peerFail
+  | ["upfail", k] => k.toNat?.map .peerUploadFailed
   | _ => none
 
 def handle (s : TS) (line : String) : TS × String :=
@@ -62,7 +77,11 @@ def handle (s : TS) (line : String) : TS × String :=
   | toks =>
     match parseOp toks with
     | none => (s, "bad-op")
-    | some op => let s' := step s op; (s', render s')
+    | some op =>
+      let s' := step s op
+      match op with
+      | .taskEnd t _ => (s', (render s').replace " | " s!" end={endKind s t} | ")
+      | _ => (s', render s')
 
 partial def loop (h : IO.FS.Stream) (s : TS) : IO Unit := do
   let line ← h.getLine
